@@ -87,8 +87,15 @@ class Pipeline:
         if not ok:
             return SKIP(why)
         sgn = {'centre': o['center_extrema'], 'method': o['burst_method']}
+        from bycycle.features import compute_features
+        kw = S.call_kwargs(o)                # ONE set of option objects for every call of this case (as a user would)
+        flag = kw.pop('return_samples')
+
+        def cf(rs):
+            arg = sig if o.get('layout', 'plain') != 'plain' else np.array(sig, dtype=float)
+            return compute_features(arg, o['fs'], o['f_range'], return_samples=rs, **kw)
         try:
-            df = run_cf(sig, o, return_samples=True)
+            df = cf(True)
         except Exception as e:      # noqa
             import traceback
             return VIOL(dict(sgn, kind='raise', exc=type(e).__name__, devs=list(devs)),
@@ -99,8 +106,8 @@ class Pipeline:
             v['sig']['devs'] = list(devs)
             return v
         nev = 1
-        if not o['return_samples']:
-            d2 = run_cf(sig, o)
+        if not flag:
+            d2 = cf(False)
             nev += 1
             if any(c.startswith('sample_') for c in d2.columns):
                 return VIOL(dict(sgn, kind='nosamples'), 'sample columns returned with return_samples=False')
@@ -109,7 +116,6 @@ class Pipeline:
                 return VIOL(dict(sgn, kind='nosamples'), 'return_samples=False changes other columns: ' + dd)
         if self.fit_too and len(devs) <= 1:
             from bycycle import Bycycle
-            kw = S.call_kwargs(o)
             bm = Bycycle(center_extrema=kw['center_extrema'], burst_method=kw['burst_method'],
                          burst_kwargs=kw.get('burst_kwargs'), thresholds=kw.get('threshold_kwargs'),
                          find_extrema_kwargs=kw.get('find_extrema_kwargs'), return_samples=True)
@@ -123,6 +129,16 @@ class Pipeline:
             if v is not None:
                 v['sig']['via'] = 'Bycycle.fit'
                 return v
+            if 'find_extrema_kwargs' in kw:
+                # the same option objects once more (second fit on the object, second functional call)
+                bm.fit(np.array(sig), o['fs'], o['f_range'])
+                for tab, via in ((bm.df_features, 'second Bycycle.fit'), (cf(True), 'second compute_features call')):
+                    nev += 1
+                    v = check_table(tab, sig, o, ref, w)
+                    if v is not None:
+                        v['sig']['via'] = via
+                        v['sig']['devs'] = list(devs)
+                        return v
         sc = sample_cols(o['center_extrema'])
         gaps = set(np.diff(df[sc['centre']].to_numpy()).tolist()) if len(df) > 1 else set()
         return OK(outcome=table_hash(df, sorted(sc.values())), nontrivial=len(df) >= 3 and len(gaps) > 1, evals=nev,
@@ -144,6 +160,10 @@ def spaces(tier, seed):
         out.append(ProductSpace('W(5,5)x1dev', S.word_dims(al5, 5) + [singles], ev,
                                 describe='all 5-letter words over 5 letters x every single deviation',
                                 bounds={'letters': al5, 'option_sets': len(singles), 'max_deviations': 1}))
+        alv = ['a', 's', 'l', 'v']
+        out.append(ProductSpace('Wlen(4,6)xcore', S.word_dims(alv, 6) + [[(), ('amp', 'trough')]], ev,
+                                describe='6-letter words over letters of 8 / 6 / 10 / 7 samples: signal lengths 36..60 incl. primes',
+                                bounds={'letters': alv}))
         al3 = S.alphabet(3)
         longs = [('nc4',), ('b12',), ('b12', 'trough'), ('nc4', 'amp')]
         out.append(ProductSpace('W(3,7)xlong', S.word_dims(al3, 7) + [longs], ev,
